@@ -35,10 +35,12 @@ type NativeCall struct {
 	ExtraC   string // additional C definitions (e.g. extern callbacks)
 	Name     string
 	Objects  []string
-	PostCall string // C statement executed after the call (e.g. a report function)
-	InitFn   string // module initialiser to call first (globals)
-	Track    bool   // wrap ddp_reallocate: report wrong sizes, foreign releases and blocks left at the end
-	InitAll  bool   // call the initialiser of every module in the object (imports first), as ddp_ddpmain does
+	PostCall string            // C statement executed after the call (e.g. a report function)
+	InitFn   string            // module initialiser to call first (globals)
+	Track    bool              // wrap ddp_reallocate: report wrong sizes, foreign releases and blocks left at the end
+	Files    map[string]string // further modules written next to the program (imports)
+	CallMain bool              // call ddp_ddpmain instead of Fn
+	InitAll  bool              // call the initialiser of every module in the object (imports first), as ddp_ddpmain does
 	InitFns  []string
 }
 
@@ -254,6 +256,9 @@ func RunNativeOpt(env *build.Env, nc *NativeCall, valgrind bool) *NativeResult {
 	}
 	src := filepath.Join(dir, name+".ddp")
 	os.WriteFile(src, []byte(nc.DDPSrc), 0o644)
+	for fn, txt := range nc.Files {
+		os.WriteFile(filepath.Join(dir, fn), []byte(txt), 0o644)
+	}
 	obj := filepath.Join(dir, name+".o")
 	cmd := exec.Command(env.Kddp, "kompiliere", src, "-o", obj, "-O", fmt.Sprint(nc.Opt), "--list-defs-linken=false")
 	cmd.Env = append(os.Environ(), "DDPPATH="+env.Inst)
